@@ -27,6 +27,9 @@ def designs(tier):
     out = [("tall6x3", A.G_TALL), ("wide3x5", A.G_WIDE), ("dup", A.K()["dup"]), ("hadamard", A.O()["hadamard4x3"])]
     if tier != "quick":
         out += [("sq4x4", A.G_SQ), ("const", A.K()["const"])]
+        # every {-1,0,1} design with 4 samples x 2 features and 2 samples x 3 features (one per row-permutation / sign orbit)
+        out += [("T42o%d" % i, X) for i, X in enumerate(A.T_orbits(4, 2)) if np.any(X)]
+        out += [("T23o%d" % i, X) for i, X in enumerate(A.T_orbits(2, 3)) if np.any(X)]
     return out
 
 
@@ -49,7 +52,7 @@ def grids(name, p, tier):
         for a, f, g, w in itertools.product(al, fi, (3.0, 10.0), W):
             out.append(dict(alpha=a, fit_intercept=f, gamma=g, weights=w))
     elif name == "GroupLasso":
-        formats = {3: [1, [2, 1], [[0, 2], [1]], [[2], [1, 0]], 3], 5: [1, [2, 3], [[0, 3], [1, 2, 4]], [[4, 0], [3], [2, 1]], 5], 4: [2, [1, 3], [[0, 3], [1, 2]]]}[p]
+        formats = {3: [1, [2, 1], [[0, 2], [1]], [[2], [1, 0]], 3], 5: [1, [2, 3], [[0, 3], [1, 2, 4]], [[4, 0], [3], [2, 1]], 5], 4: [2, [1, 3], [[0, 3], [1, 2]]], 2: [1, [1, 1], [[1], [0]], 2]}[p]
         for a, f, g, pos in itertools.product(al, fi, formats, (False, True)):
             ng = len(g) if isinstance(g, list) else p // g
             for w in (None, [1.0, 2.0, 0.5, 3.0, 1.0][:ng]):
@@ -76,15 +79,22 @@ ESTIMATORS = ["Lasso", "WeightedLasso", "ElasticNet", "MCPRegression", "GroupLas
               "LinearSVC", "CoxEstimator", "SqrtLasso", "GLE"]
 
 
+NCHUNK = 6
+
+
 def plan(tier, seed):
-    return [dict(op="est", est=e, weight=3) for e in ESTIMATORS]
+    if tier == "quick":
+        return [dict(op="est", est=e, weight=3) for e in ESTIMATORS]
+    return [dict(op="est", est=e, chunk=c, weight=3) for e in ESTIMATORS for c in range(NCHUNK)]
 
 
 def target_for(name, X, tier, k=0):
     if name in ("SparseLogisticRegression", "LinearSVC"):
-        return R.targets("clf", X, tier)[k % 2][1]
+        t = R.targets("clf", X, tier)
+        return t[k % len(t)][1]
     if name == "MultiTaskLasso":
-        return R.targets("multi", X, tier)[k % 2][1]
+        t = R.targets("multi", X, tier)
+        return t[k % len(t)][1]
     if name == "CoxEstimator":
         n = X.shape[0]
         ties = np.column_stack([[1., 2., 2., 3., 2., 1., 3., 3.][:n], [1., 1., 1., 1., 0., 1., 1., 0.][:n]])
@@ -196,8 +206,10 @@ def exec_case(case):
     return v, w
 
 
-def cases_for(name, tier):
+def cases_for(name, tier, chunk=None):
     if name == "GLE":
+        if chunk:
+            return
         for xid, X in designs(tier)[:2]:
             y = R.targets("reg", X, tier)[1][1]
             ylab = R.targets("clf", X, tier)[0][1]
@@ -214,7 +226,9 @@ def cases_for(name, tier):
                     inner = dict(datafit=dict(name="Logistic"), penalty=dict(name="L1", alpha=a * 0.3, positive=False), solver=dict(name="ProxNewton", kw=dict(tol=TOL, fit_intercept=fi)))
                     yield dict(est="GLE", kw={}, inner=inner, X=X.tolist(), y=ylab.tolist(), xid=xid)
         return
-    for xid, X in designs(tier):
+    for di, (xid, X) in enumerate(designs(tier)):
+        if chunk is not None and di % NCHUNK != chunk:
+            continue
         p = X.shape[1]
         for k in range(2):
             y = target_for(name, X, tier, k)
@@ -229,7 +243,7 @@ def cases_for(name, tier):
 def run(task, ctx):
     name = task["est"]
     n = 0
-    for case in cases_for(name, ctx.tier):
+    for case in cases_for(name, ctx.tier, task.get("chunk")):
         v, w = exec_case(case)
         n += 1
         ctx.count("fits")
